@@ -23,7 +23,7 @@ contract(M + "fnv_1a_32", kind="function", properties=["C18"],
 
 contract(M + "default_fnv_1a", kind="function", properties=["C18", "C06"],
          params={"key": "key", "depth": "int"}, returns="list[int]",
-         modifies=[],
+         modifies=[], pure=True,
          ensures=[("exactly_depth_values", "len(result) == (depth if depth > 0 else 0)"),
                   ("element_j_is_fnv_seed_j", "all(result[j] == fnv64(key_units(key), len(key_units(key)), j) "
                                               "for j in range(0, len(result)))"),
@@ -35,7 +35,7 @@ contract(M + "default_fnv_1a", kind="function", properties=["C18", "C06"],
 
 contract(M + "hash_with_depth_bytes.hashing_func", kind="function", properties=["C18"],
          params={"key": "key", "depth": "int"}, ghost={"func": "bytesfunc"}, returns="list[int]",
-         modifies=[],
+         modifies=[], pure=True,
          ensures=[("exactly_depth_values", "len(result) == (depth if depth > 0 else 0)"),
                   ("element_j_is_chain_j", "all(result[j] == le64(chain_blob(func, start_bytes(key), j)) "
                                            "for j in range(0, len(result)))"),
@@ -50,7 +50,7 @@ contract(M + "hash_with_depth_bytes.hashing_func", kind="function", properties=[
 contract(M + "hash_with_depth_int.hashing_func", kind="function", properties=["C18"],
          params={"key": "key", "depth": "int"}, ghost={"func": "intfunc"}, returns="list[int]",
          requires=[("depth_at_least_1", "depth >= 1")],
-         modifies=[],
+         modifies=[], pure=True,
          ensures=[("exactly_depth_values", "len(result) == depth"),
                   ("element_j_is_chain_j", "all(result[j] == chain_int(func, key, j) for j in range(0, len(result)))")],
          loops={0: {"invariant": [("len", "len(res) == _i + 1"),
@@ -62,6 +62,7 @@ contract(M + "default_md5", kind="function", properties=["C18"],
          requires=[("bytes_argument", "not isinstance(key, str)")],
          modifies=[],
          ensures=[("is_md5_of_the_bytes", "result == md5_digest(key)"), ("sixteen_bytes", "len(result) == 16")],
+         decorators=["hash_with_depth_bytes"],
          note="the undecorated body; the decorator is covered by hash_with_depth_bytes.hashing_func")
 
 contract(M + "default_sha256", kind="function", properties=["C18"],
@@ -69,4 +70,5 @@ contract(M + "default_sha256", kind="function", properties=["C18"],
          requires=[("bytes_argument", "not isinstance(key, str)")],
          modifies=[],
          ensures=[("is_sha256_of_the_bytes", "result == sha256_digest(key)"), ("thirtytwo_bytes", "len(result) == 32")],
+         decorators=["hash_with_depth_bytes"],
          note="the undecorated body; the decorator is covered by hash_with_depth_bytes.hashing_func")
